@@ -209,7 +209,7 @@ func runC17(r *Runner, g *Gen, tier string) string {
 		}
 		r.Do(L(items...), true, "world.tagged-self-reference")
 	}
-	n := scale(tier, 1200, 50000)
+	n := scale(tier, 1200, 150000)
 	for i := 0; i < n; i++ {
 		items := []*Sexp{A("world")}
 		ninst := 2 + g.r.Intn(2)
